@@ -1,5 +1,6 @@
 //! Physical operators
 
+mod alias;
 mod delim_join;
 mod filter;
 pub mod hash_agg;
@@ -19,6 +20,7 @@ pub mod vector_search;
 pub mod vectorized_hash;
 mod window;
 
+pub use alias::AliasExec;
 pub use delim_join::{DelimGetExec, DelimJoinExec, DelimState};
 pub use filter::{evaluate_expr, filter_batches, FilterExec};
 pub use hash_agg::{AggregateExpr, HashAggregateExec};
